@@ -6,7 +6,9 @@
 (* A line is                                                                 *)
 (*   a, i, t, n, hint, inc, blk      the call (as in the schedule)           *)
 (*   ev[i] = <<ch, cb, neg, done, sh, sv, reorg, upd>> per registration slot *)
-(*   chint[t], shint[o]               both hint caches, -1 = no entry        *)
+(*   chint[t], shint[o]               both hint caches as read back through   *)
+(*                                    every request id (conf 1..4*NOuts,      *)
+(*                                    spend 1..3*NOuts), -1 = no entry        *)
 (*   hd = <<has, s, e>>, err, panic, hang                                    *)
 EXTENDS TxNotifier, Json
 VARIABLES l,       \* next line of the trace
@@ -34,7 +36,7 @@ Reset ==
   /\ regs' = [i \in RegIds |-> NoReg]
   /\ byConf' = {} /\ byInit' = {} /\ spBy' = {}
   /\ chint' = [t \in ConfTargets |-> -1]
-  /\ shint' = [o \in SpendTargets |-> -1]
+  /\ shint' = [o \in HKeys |-> -1]
   /\ panic' = FALSE
   /\ nextBlk' = 1 /\ maxTip' = 0
   /\ hc' = [t \in ConfTargets |-> NoR]
@@ -82,7 +84,7 @@ RecConfTruthful == Live => \A i \in RegIds : Last.ev[i][1] # -1 =>
 RecSpendTruthful == Live => \A i \in RegIds : Last.ev[i][5] # -1 =>
   /\ regs[i].k = "spend"
   /\ SpentAt(regs[i].t) = Last.ev[i][5]
-  /\ chain[Last.ev[i][5]].inc[regs[i].t] = Last.ev[i][6]
+  /\ chain[Last.ev[i][5]].inc[SOut(regs[i].t)] = Last.ev[i][6]
 \* told exactly when the N-th confirmation is on the active chain / the outpoint is spent
 RecConfTimely == Live => \A i \in RegIds :
   (Watching(i, "conf") /\ hc[regs[i].t] = NoR /\ Confs(regs[i].t) >= regs[i].n) => rtold[i]
@@ -112,7 +114,7 @@ ConformOut == Live => \A i \in RegIds :
   /\ Last.ev[i][7] = out[i].reorg
 ConformHints == Live =>
   /\ \A t \in ConfTargets : Last.chint[t] = chint[t]
-  /\ \A o \in SpendTargets : Last.shint[o] = shint[o]
+  /\ \A o \in SpendTargets : Last.shint[o] = shint[SKey(o)]
 ConformDispatch == Live => Last.hd = <<B(hd # NoR), hd.s, hd.e>>
 \* no error, no panic, and every call returned (hang = a send on a full channel under the mutex)
 ConformErr == Live => Last.err = err /\ Last.panic = B(panic) /\ Last.hang = 0
